@@ -69,7 +69,13 @@ class Spec(unit.UnitSpec):
                 "Mmtk.SideMeta.findPrev_own_region_partial", "Mmtk.SideMeta.findNext_own_region_partial",
                 "Mmtk.SideMeta.findPrev_own_region_fixed_below", "Mmtk.SideMeta.findPrev_own_region_fixed_within",
                 "Mmtk.SideMeta.findPrev_fast_ne_simple_without_mapConsistent",
-                "Mmtk.SideMeta.scan_fast_ne_simple_unaligned_end_witness"]
+                "Mmtk.SideMeta.scan_fast_ne_simple_unaligned_end_witness",
+                "Mmtk.SideMeta.scanFast_eq_scanSpec", "Mmtk.SideMeta.scan_fast_eq_naive", "Mmtk.SideMeta.scan_spec",
+                "Mmtk.SideMeta.scan_public_spec",
+                "Mmtk.SideMeta.findNext_fast_eq_simple", "Mmtk.SideMeta.findNext_spec", "Mmtk.SideMeta.findNext_public",
+                "Mmtk.SideMeta.findNext_region0_witness",
+                "Mmtk.SideMeta.findPrev_fast_eq_simple", "Mmtk.SideMeta.findPrev_spec", "Mmtk.SideMeta.findPrev_public",
+                "Mmtk.SideMeta.findPrevOld_fast_eq_simple"]
     component = "side"
     relation = "Mmtk.SideMeta.{findPrev*, findNext*, scan*} ≙ SideMetadataSpec::{find_prev/next_non_zero_value(_fast|_simple), scan_non_zero_values(_fast|_simple)}"
     assumptions = ["MapConsistent: within the searched range a mapped data region has mapped metadata, and at/behind an unmapped "
